@@ -99,7 +99,8 @@ def make_setup(rng, leaderless=0.0):
         calls.append(T("with_fetch_max_bytes_per_partition", [biggest + rng.randint(0, 40)]))
         small = True
     rng.shuffle(calls)
-    return {"spec": spec, "calls": calls, "assigned": assigned, "storage": storage, "fallback": fallback, "small": small}
+    return {"spec": spec, "calls": calls, "assigned": assigned, "storage": storage, "fallback": fallback, "small": small,
+            "client_storage_differs": rng.random() < 0.35}
 
 
 def rand_history(rng, su, n, faults=True):
@@ -143,6 +144,10 @@ def lifetime_start(su, source, hosts):
         ops.append(T("consumer_build", [T("from_hosts", [hosts]), su["calls"]]))
         ops.append(T("set_retry_max_attempts", [1]))       # a client made by the builder sleeps 100 ms per retry
     else:
+        st = [c.args[0] for c in su["calls"] if c.name == "with_offset_storage"]
+        if st and su.get("client_storage_differs"):
+            # the client handed to the builder was configured with the OTHER storage: the builder's explicit choice is in force
+            ops.append(T("set_group_offset_storage", [1 - st[-1]]))
         ops.append(T("consumer_build", [T("from_client"), su["calls"]]))
     for tp in su["assigned"]:
         ops.append(T("consumer_op", [T("last_consumed_message", [tp[0], tp[1]])]))
